@@ -850,8 +850,107 @@ func sweepRegex(c *core.Ctx, judge judgeFn) {
 	}, func(t scase) string { return t.Src }, func(t scase, o panrun.Obs) { judge("regex: "+t.Src, t, t.Src+"\n", o, "regex") })
 }
 
+// ---------------------------------------------------------------- (j) failing expressions under unusual layouts; (k) literals evaluated again
+
+// Every error carries the source line and column of the nodes it passed; those come from the lexer and are only
+// looked at when something fails. 9 layouts (multi-line raw strs, multi-byte text, interpolations, multi-line calls
+// and chains) x 7 failing expressions x 6 texts that follow x {plain, caught by try}, as a program and through
+// Str#eval; the result (also of an uncaught error) must print.
+func sweepLayouts(c *core.Ctx, judge judgeFn) {
+	r := c.R()
+	layouts := []string{"X + `a\nbbbbbbbbbbbbbbbbbbbbbbbbbbbbbbbbbbbbbbbbbbbbb`", "`a\nbbbbbbbbbbbbbbbbbbbbbbbbbbbbbbbbbbbbbbbbbbbb` + X", "\"日本語日本語日本語日本語\".p; X", "[`m\n ultiline line that is long`, X]",
+		"[1, 2]\n  |@{|e| X}", "f(\n  X\n)", "{|| `r\nrrrrrrrrrrrrrrrrrrrrrrrrrrrrrrr`; X}()", "\"日本語#{X}日本語\"", "{a: `v\nvvvvvvvvvvvvvvvvvvvvvvvvvvvv`, b: X}",
+		"X if `c\nccccccccccccccccccccccccc` else 1", "x := `s\nsssssssssssssssssssssssss`; X"}
+	fails := []string{"titel", "(1 / 0)", "nil.nope", "raise Err.new(\"e\")", "\"\".at", "[1].foo(2)", "{|| undefinedInner}()"}
+	follows := []string{"", "\n", "\nx", "\n# a comment that is longer than the line before it, long enough", "\n\n\n", "\n1"}
+	var srcs []string
+	for _, l := range layouts {
+		for _, f := range fails {
+			for _, n := range follows {
+				body := strings.ReplaceAll(l, "X", f)
+				srcs = append(srcs, "f := {|v| v}\n"+body+n, "f := {|v| v}\n\"\".try.{\n  "+body+"\n}"+n, "f := {|v| v}\nres := \"\".try.{\n  "+body+"\n}\nres.err.msg.p"+n)
+			}
+		}
+	}
+	evalFn := r.EvalSrc("Str['eval]", "")
+	if evalFn.Kind != "value" {
+		c.HarnessError("Str['eval] is not a value")
+		return
+	}
+	c.Note("layout_programs", len(srcs)*2)
+	tk.Sharded(c, len(srcs)*2, func(i int) {
+		s := srcs[i/2]
+		c.Eval(1)
+		var o panrun.Obs
+		mode := "layout"
+		if i%2 == 0 {
+			o = r.EvalSrc(s, "")
+		} else {
+			mode = "layout-through-eval"
+			env := object.NewEnclosedEnv(r.Root)
+			o = r.Guard(env, "", func() object.PanObject { return r.Call(env, evalFn.Val, object.NewPanStr(s)) })
+		}
+		if i%997 == 0 {
+			c.Sample(map[string]string{"mode": mode, "source": s})
+		}
+		if o.Kind == "value" || o.Kind == "error" {
+			func() {
+				defer func() {
+					if p := recover(); p != nil {
+						o = panrun.Obs{Kind: "panic", Panic: fmt.Sprint(p), Stack: "after-use"}
+					}
+				}()
+				if o.Val != nil {
+					afterUse(r, o.Val)
+				}
+			}()
+		}
+		judge(mode+": "+fmt.Sprintf("%q", s), scase{Mode: "source", Src: s}, s+"\n", o, mode)
+	})
+}
+
+// One literal (one syntax node) evaluated several times with different values in its computed parts: the objects,
+// maps, arrays, strs, ranges and functions it makes are then printed, listed, compared and expanded.
+func sweepReevaluatedLiterals(c *core.Ctx, judge judgeFn) {
+	r := c.R()
+	lits := []string{"{\"col#{i}\": v}", "{^k: v}", "{a: v, \"b#{i}\": i}", "%{\"col#{i}\": v}", "%{i: v}", "%{[i]: v, k: i}", "{**o}", "{a: 0, **o}", "%{**o}", "%{'z: 0, **o}", "[i, *l]", "[*l, v]", "\"s#{i}#{v}\"", "(i:v)", "(i:9:i + 1)",
+		"{|x: i| [x, v]}", "m{|y: v| [self, y]}", "<{|n: i| yield n if n < 3; recur(n: n + 1)}>", "[{\"k#{i}\": v}]", "{in: {\"k#{i}\": v}}", "{|| {\"k#{i}\": v}}()"}
+	uses := []string{"R.p", "R.S", "R.repr", "R.keys", "R.values", "R.items", "R.A", "R == R", "[R[0], R[1]] == [R[1], R[0]]", "R@{|a| a}", "{**R[1]}", "%{**R[1]}", "[*R[1]]", "R[1].keys(private?: true)", "R[1].len", "R@S", "R[1]()", "R[1].new.A"}
+	argsets := []string{"[1, \"apple\", \"a\", {p: 1}, [7]], [2, \"banana\", \"b\", {q: 2, p: 3}, [8, 9]]", "[1, \"x\", \"k\", {}, []], [1, \"x\", \"k\", {}, []], [3, nil, \"_h\", {_p: 1}, [nil]]"}
+	var srcs []string
+	for _, l := range lits {
+		for _, u := range uses {
+			for _, a := range argsets {
+				srcs = append(srcs, "mk := {|i, v, k, o, l| "+l+"}\nR := ["+a+"]@{|t| mk(*t)}\n"+u)
+			}
+		}
+	}
+	c.Note("reevaluated_literal_programs", len(srcs))
+	tk.Sharded(c, len(srcs), func(i int) {
+		s := srcs[i]
+		c.Eval(1)
+		o := r.EvalSrc(s, "")
+		if i%499 == 0 {
+			c.Sample(map[string]string{"mode": "literal evaluated again", "source": s})
+		}
+		if o.Kind == "value" {
+			func() {
+				defer func() {
+					if p := recover(); p != nil {
+						o = panrun.Obs{Kind: "panic", Panic: fmt.Sprint(p), Stack: "after-use"}
+					}
+				}()
+				afterUse(r, o.Val)
+			}()
+		}
+		judge("literal evaluated again: "+fmt.Sprintf("%q", s), scase{Mode: "source", Src: s}, s+"\n", o, "reeval-literal")
+	})
+}
+
 func run(c *core.Ctx) {
 	judge := newJudge(c)
+	sweepLayouts(c, judge)
+	sweepReevaluatedLiterals(c, judge)
 	sweepREPL(c, judge)
 	sweepIterators(c, judge)
 	sweepFiniteRanges(c, judge)
